@@ -16,3 +16,12 @@ VF_API double vf_sph_value(int norm, int L, int N, int nmx1, int mmx1, const dou
   if (L == 1) return norm == 0 ? SphericalEngine::Value<false, SphericalEngine::FULL, 1>(c, f, x, y, z, a, gx, gy, gz) : SphericalEngine::Value<false, SphericalEngine::SCHMIDT, 1>(c, f, x, y, z, a, gx, gy, gz);
   return norm == 0 ? SphericalEngine::Value<false, SphericalEngine::FULL, 2>(c, f, x, y, z, a, gx, gy, gz) : SphericalEngine::Value<false, SphericalEngine::SCHMIDT, 2>(c, f, x, y, z, a, gx, gy, gz);
 }
+#include <sstream>
+// replay helper: the real readcoeffs on a stream holding the header (N0, M0) followed by zero coefficients; 1 GeographicErr, 0 no exception, 2 any other exception
+VF_API int vf_readcoeffs(int N, int M, int N0, int M0, int truncate, int* outNM) {
+  std::string buf(8 + 8 * 4096, '\0'); std::memcpy(&buf[0], &N0, 4); std::memcpy(&buf[4], &M0, 4);
+  std::istringstream str(buf, std::ios::binary); std::vector<double> C, S;
+  try { GeographicLib::SphericalEngine::coeff::readcoeffs(str, N, M, C, S, truncate != 0); outNM[0] = N; outNM[1] = M; return 0; }
+  catch (const GeographicLib::GeographicErr&) { return 1; }
+  catch (const std::exception&) { return 2; }
+}
